@@ -220,7 +220,7 @@ class C06(Check):
     assumptions = ('helpers (lock holder, producer, resource holder) are never cancelled so all waits end',)
 
     def strategy(self, tier):
-        return st.integers(0, 149).flatmap(lambda k, tier=tier: crowd_cases() if k == 0 else programs(tier))
+        return st.sampled_from(range(150)).flatmap(lambda k, tier=tier: crowd_cases() if k == 0 else programs(tier))
 
     def crowd_case(self, case):
         """more than a thousand activities await one task (`await task` / `await task.done`), started over many time steps;
